@@ -82,7 +82,8 @@ class KernelRun:
 def run(mod, name, args, mode='fork', machine=None, race=False, timeout_ms=20000):
     """args: numpy arrays / IntObj / ints / floats / z3 terms / str, in the glue's argument order."""
     m = machine or Machine(mod, mode=mode, timeout_ms=timeout_ms)
-    m.race_mode = race
+    if race:
+        m.race_mode = True
     pyargs = []; regions = {}
     for k, a in enumerate(args):
         if isinstance(a, (np.ndarray, IntObj)):
